@@ -59,7 +59,7 @@ class VCtx(Ctx):
         decl = z3.Function('spec!' + name, *sorts, SORTS[ret])
         self.spec_funs[name] = dict(params=params, sorts=sorts, decl=decl, ret=SORTS[ret], body=body)
         if body is None:
-            if any(s_.kind() == z3.Z3_ARRAY_SORT for s_ in sorts):
+            if name in EXTENSIONAL and any(s_.kind() == z3.Z3_ARRAY_SORT for s_ in sorts):
                 # uninterpreted function of arrays: two applications on extensionally equal arrays are equal (pair axioms)
                 self.registry.__dict__.setdefault('uf_arrays', {})['spec!' + name] = decl
             return
@@ -82,6 +82,11 @@ class VCtx(Ctx):
                 return simp(app == ZR(v))
             return simp(app == Z(v))
         self.registry.specs['spec!' + name] = smt.SpecFun('spec!' + name, decl, unfold, depth)
+
+
+# uninterpreted spec functions of arrays for which extensionality pair axioms are generated (opt-in: the axioms add witnesses
+# and terms to every VC in which the function occurs)
+EXTENSIONAL = {'solveT'}
 
 
 class _SpecModule:
@@ -661,6 +666,7 @@ def discharge(ctx, obligations=None, timeout=20, procs=None, backends=('z3py', '
                     for (i, nm, be, st_, secs, err) in _bounded_iter(pool.imap_unordered(_work, jobs, chunksize=1), hard_deadline, ctx):
                         ob, st = obligations[i], state[i]
                         st['open'] -= 1
+                        st.setdefault('log', []).append((nm, be, st_, round(secs, 1)))
                         if st_ == 'skipped':
                             if st['open'] == 0:
                                 st['resolved'] = True
@@ -711,6 +717,8 @@ def discharge(ctx, obligations=None, timeout=20, procs=None, backends=('z3py', '
                                 ob.status, ob.backend = 'refuted', state[i]['sat']
                             else:
                                 ob.status, ob.backend = 'undecided', 'all-unknown'
+                                if os.environ.get('VF_TIMING'):
+                                    print('undecided %s: %s' % (ob.name, state[i].get('log')), file=sys.stderr)
                 save_strategy_hints({keys[id(obligations[i])]: obligations[i].strategy for i in todo
                                      if getattr(obligations[i], 'strategy', None)})
                 if os.environ.get('VF_TIMING'):
@@ -768,7 +776,9 @@ def new_ctx(repo=None):
                     if ('prodp', i1, i2) not in seen_pairs:
                         seen_pairs.add(('prodp', i1, i2))
                         out.extend(flat.prod_pair_axioms(rank, a1, a2))
-            if len(occ) <= 14:
+            if os.environ.get('VF_FLAT_INJ') and len(occ) <= 14:
+                # injectivity of the flat index (kept as a proved lemma, vf/lemmas_flat.py); not handed to the solver by default:
+                # view writes are stated region-wise (written box / rest of the lens region / outside), which needs no inverse
                 import itertools
                 for (i1, a1), (i2, a2) in itertools.combinations(occ, 2):
                     if ('flatp', i1, i2) in seen_pairs:
